@@ -473,6 +473,11 @@ class Emitter:
             en = self.v.get("enums", {}).get(segs[-2])
             if en is not None and segs[-1] in en["variants"]:
                 return k(en["variants"][segs[-1]], ("enum", segs[-2]), env)
+            if segs == ["Self", segs[-1]] and self.self_struct is not None:
+                # `Self::Variant` inside an (inlined) method of a vocabulary enum
+                en = self.v.get("enums", {}).get(self.self_struct)
+                if en is not None and segs[-1] in en["variants"]:
+                    return k(en["variants"][segs[-1]], ("enum", self.self_struct), env)
             c = self.v.get("consts", {}).get("::".join(segs[-2:]))
             if c is not None:
                 return k(c[0], c[1], env)
@@ -1616,7 +1621,9 @@ class Emitter:
             if c is not None:
                 return "(%s =? %s)" % (term, c[0])
             en = self.v.get("enums", {}).get(p.segs[-2]) if len(p.segs) >= 2 else (self.v["enums"][ty[1]] if ty[0] == "enum" else None)
-            if en is None:
+            if en is None and len(p.segs) == 2 and p.segs[0] == "Self" and self.self_struct is not None and ty == ("enum", self.self_struct):
+                en = self.v.get("enums", {}).get(self.self_struct)      # `Self::Variant` inside an (inlined) method of the enum
+            if en is None or p.segs[-1] not in en["variants"]:
                 raise EmitError("pattern path %s" % "::".join(p.segs))
             return "(%s %s %s)" % (en["eqb"], term, en["variants"][p.segs[-1]])
         if k == "por":
@@ -1652,6 +1659,10 @@ class Emitter:
             return self.nonnative(t[1]) or self.nested_nonnative(t[1])
         if t[0] == "tuple":
             return any(self.nonnative(x) or self.nested_nonnative(x) for x in t[1])
+        if t[0] == "enum" and t[1] in self.v.get("enums", {}) and self.v["enums"][t[1]].get("native", True) is not False:
+            # a native enum whose variants carry such an enum (`Color::Ansi(AnsiColor::Red | AnsiColor::BrightRed)`)
+            return any(self.nonnative(x) or (x != t and self.nested_nonnative(x))
+                       for pl in self.v["enums"][t[1]].get("payload", {}).values() if isinstance(pl, list) for x in pl)
         return False
 
     def pat_names_nonnative(self, p, ty):
@@ -1709,7 +1720,7 @@ class Emitter:
             return n
         if k == "ppath":
             return self.coq_pattern(p, ty, binds)
-        if k == "ptstruct" and self.enum_payload(p) is not None and term is None:
+        if k == "ptstruct" and self.enum_payload(p) is not None:
             # data-carrying variant of a native vocabulary enum (`Some(Color::Ansi(c))`)
             ctor, ptys = self.enum_payload(p)
             return "(%s %s)" % (ctor, " ".join(self.hybrid_pat(x, t, binds, tests) for x, t in zip(self.payload_elems(p, len(ptys)), ptys)))
@@ -1747,11 +1758,29 @@ class Emitter:
             env2 = env1
             for rn, cn, t, mut in binds:
                 env2 = env2.bind(rn, cn, t, mut)
+            gimp = None
             if g is not None:
                 pg = self.try_pure(g, env2)
                 if pg is None:
-                    raise EmitError("match guard that can panic")
-                tests.append(pg[0])
+                    # a guard that can panic (a call of an option-valued translation): evaluated in the monad once the
+                    # pattern and the pure tests have matched, as in Rust: `g <- guard ;; if g then body else <next arms>`;
+                    # it must not assign (the next arms go on from the state before the guard)
+                    if self.assigned(g, env2):
+                        raise EmitError("match guard that can panic and assigns a variable")
+                    gimp = g
+                else:
+                    tests.append(pg[0])
+            if gimp is not None:
+                nxt = arm(j + 1)
+                n = self.fresh("next")
+                pre = "let %s := fun (_ : unit) =>\n%s in\n" % (n, ind(nxt, 4))
+                nxt = "%s tt" % n
+                gcode = self.expr(gimp, env2, lambda gt, _gty, env3: "if %s then\n%s\nelse\n%s" % (gt, ind(self.expr(body, env3, kk)), ind(nxt)))
+                inner = gcode if not tests else "if %s then\n%s\nelse\n%s" % (" && ".join(tests), ind(gcode), ind(nxt))
+                if not any(x != "_" for x in pats):
+                    return pre + inner
+                return pre + "match %s with\n| %s =>\n%s\n| %s =>\n%s\nend" % (
+                    ", ".join(terms), ", ".join(pats), ind(inner, 4), ", ".join("_" for _ in terms), ind(nxt, 4))
             bcode = self.expr(body, env2, kk)
             refutable = any(x != "_" for x in pats)
             if not tests and not refutable:
